@@ -9,6 +9,7 @@ from . import runner as R
 from . import kani as K
 
 ROOT = R.ROOT
+OUT = os.environ.get("VERIF_OUT", ROOT)
 KNOWN = os.path.join(ROOT, "known-findings.txt")
 
 
@@ -141,15 +142,15 @@ def decide(prop, tier, seed):
         "wall_s": round(time.time() - t0, 2),
         "violations": len(violations),
     }
-    os.makedirs(os.path.join(ROOT, "evidence"), exist_ok=True)
-    with open(os.path.join(ROOT, "evidence", prop + ".json"), "w") as f:
+    os.makedirs(os.path.join(OUT, "evidence"), exist_ok=True)
+    with open(os.path.join(OUT, "evidence", prop + ".json"), "w") as f:
         json.dump(ev, f, indent=1)
     for k, f in known_hits:
         print(f"KNOWN-FINDING: property={prop} {f['obligation']} {k['what']}")
     rc = 0
     if violations:
         rc = 1
-        os.makedirs(os.path.join(ROOT, "replay"), exist_ok=True)
+        os.makedirs(os.path.join(OUT, "replay"), exist_ok=True)
         seen = set()
         n = 0
         for v in violations:
@@ -158,7 +159,7 @@ def decide(prop, tier, seed):
                 continue
             seen.add(key)
             n += 1
-            path = os.path.join(ROOT, "replay", f"{prop}-{n}.json")
+            path = os.path.join(OUT, "replay", f"{prop}-{n}.json")
             rep = {
                 "property": prop, "obligation": v["obligation"], "clause": v.get("clause", ""), "unit": v["unit"], "function": v.get("fn"),
                 "verifier_message": v.get("msg", ""), "verifier_output": v.get("raw", ""), "input": v.get("input"),
